@@ -55,9 +55,9 @@ CHECKS = {
     engine="BgzfReader"),
  "C09": dict(
     category="fault_enumeration", design_ref="DESIGN.md §5 C09",
-    text="Fault enumeration on the real code, judged by TLC: writer - every underlying-Write index of 6 fixed workloads x wc x {error, partial+error}, random scripts with random fault positions and hook-directed schedules, validated against WriterP (errors sticky and reported by Close, nothing delivered after a failure, every call returns, nothing left after Close); reader - 3 files x 4 workloads (incl. seek-retry after an error) x rd x {cache, none} x every index of the underlying Read and Seek call (error, partial data then error, persistent), validated against the fault-aware ReaderP (only a correct prefix then an error, no early clean end). TLC also checks WriterI/ReaderI with an injected failure for deadlock freedom and leak freedom.",
+    text="Fault enumeration on the real code, judged by TLC: writer - every underlying-Write index of 6 fixed workloads x wc x {error, partial+error}, random scripts with random fault positions and hook-directed schedules, validated against WriterP (errors sticky and reported by Close, nothing delivered after a failure, every call returns, nothing left after Close); reader - 3 files x 4 workloads (incl. seek-retry after an error) x rd x {cache, none} x every index of the underlying Read and Seek call (error, partial data then error, persistent), validated against the fault-aware ReaderP (only a correct prefix then an error, no early clean end). TLC also checks WriterI/ReaderI with an injected failure for deadlock freedom and leak freedom, and - under weak fairness per goroutine - that every call returns (WriterMC_live, ReaderMC_live, ReaderMC_live_fault: no livelock).",
     note="Trusted: TLC, watchdog + goroutine dump (hang = over threshold and the call's goroutine parked inside package bgzf; leak = bgzf frames alive after Close beyond a baseline). Contract-violating underlying writers (silent short writes) are excluded, as in the property.",
-    technique="fault enumeration on real code + TLA+ P-spec trace validation by TLC + TLC deadlock/leak check of fault-enabled I-specs",
+    technique="fault enumeration on real code + TLA+ P-spec trace validation by TLC + TLC deadlock/leak/liveness check of fault-enabled I-specs",
     engine="BgzfWriter"),
  "C10": dict(
     category="fault_enumeration", design_ref="DESIGN.md §5 C10",
